@@ -59,7 +59,7 @@ func init() {
 // ---------------------------------------------------------------------------------------
 
 const c08MemLimit = 1536 << 20 // live heap above this: the watchdog ends the worker (exit 99)
-const c08Deadline = 60 * time.Second
+const c08Deadline = 300 * time.Second // wall clock; generous: the machine may be loaded
 
 var c08BusySince atomic.Int64
 
@@ -1649,7 +1649,7 @@ func c08Streams(c *Ctx) {
 	if c.Thorough() {
 		srcs = append(srcs, src{"newlines", []byte("\n")}, src{"ff", []byte{0xff}}, src{"pem-begin", []byte("-----BEGIN \n")}, src{"text", []byte("hello world\n")})
 	}
-	timeout := 120 * time.Second
+	timeout := 600 * time.Second // wall clock; generous: the machine may be loaded
 	for _, s := range srcs {
 		// (a) an endless pipe on standard input; the bytes consumed are counted exactly:
 		// written into the pipe minus what is left in it when the CLI has exited
